@@ -249,6 +249,33 @@ def run_history(rec, hist, on="module", export=False):
     return obj, model
 
 
+def alias_invariants(rec, targets, on, hist, where):
+    """Whatever was accepted or refused: (I1) no holder lists one object under two names; (I2) an object listed by a Bundle is listed
+    by no other holder (a Bundle cannot notice that a member was re-named by someone else; a Module robbed by ANOTHER MODULE keeps a
+    stale entry by design, which its elaboration reports as an orphan)."""
+    import hdl21 as h
+
+    for k, tgt in enumerate(targets):
+        seen = {}
+        for key, v in tgt.namespace.items():
+            if id(v) in seen:
+                rec.violation("object-under-two-names", f"after {where}: target {k} ({type(tgt).__name__}) lists one {type(v).__name__} as "
+                                                        f"'{seen[id(v)]}' and as '{key}'  [history {hist}]", case={"kind": "alias", "on": on, "history": hist})
+            seen[id(v)] = key
+    for k, tgt in enumerate(targets):
+        if not isinstance(tgt, h.Bundle):
+            continue
+        mine = {id(v): key for key, v in tgt.namespace.items()}
+        for k2, other in enumerate(targets):
+            if other is tgt:
+                continue
+            for key2, v2 in other.namespace.items():
+                if id(v2) in mine:
+                    rec.violation("object-held-by-two-holders", f"after {where}: one {type(v2).__name__} is member '{mine[id(v2)]}' of target {k} (Bundle) and "
+                                                                f"attribute '{key2}' of target {k2} ({type(other).__name__}); it reports the name '{v2.name}'  "
+                                                                f"[history {hist}]", case={"kind": "alias", "on": on, "history": hist})
+
+
 def alias_history(rec, hist, on):
     """Histories that re-use objects: hist = [(target 0|1, op, name, value)] with value in P0 (one Signal object), P1 (one bundle
     instance), P2 (one Instance; modules only), FS / FB (fresh Signal / bundle instance).  Post-condition of every assignment that
@@ -260,7 +287,10 @@ def alias_history(rec, hist, on):
     _state["active"] = True
     _state["alias"] = True
     try:
-        targets = [h.Module(name=f"Al{next(_ctr)}") for _ in range(2)] if on == "module" else [h.Bundle(name=f"AlB{next(_ctr)}") for _ in range(2)]
+        if on == "mixed":  # one Module and one Bundle: a Signal / bundle instance can be offered to either
+            targets = [h.Module(name=f"Al{next(_ctr)}"), h.Bundle(name=f"AlB{next(_ctr)}")]
+        else:
+            targets = [h.Module(name=f"Al{next(_ctr)}") for _ in range(2)] if on == "module" else [h.Bundle(name=f"AlB{next(_ctr)}") for _ in range(2)]
         pool = {"P0": h.Signal(), "P1": h.BundleInstance(of=lib()["B"]), "P2": h.Instance(of=lib()["E"]())}
         for (t, op, name, v) in hist:
             val = pool[v] if v in pool else (h.Signal(width=2) if v == "FS" else h.BundleInstance(of=lib()["B"]))
@@ -273,14 +303,16 @@ def alias_history(rec, hist, on):
                     tgt.add(val, name=name)
             except Exception as e:
                 rec.count("alias.refused")
+                alias_invariants(rec, targets, on, hist, f"the refused {op} of {v} as '{name}' on target {t}")
                 continue
             rec.count("alias.ops")
+            alias_invariants(rec, targets, on, hist, f"{op} of {v} as '{name}' on target {t}")
             bad = []
             if tgt.get(name) is not val:
                 bad.append(f"get('{name}') is not the object just assigned")
             if val.name != name:
                 bad.append(f"the object reports name '{val.name}'")
-            if on == "module" and getattr(val, "_parent_module", None) is not tgt:
+            if isinstance(tgt, h.Module) and getattr(val, "_parent_module", None) is not tgt:
                 bad.append("the object does not report the module it was just added to as its parent")
             for b in bad:
                 rec.violation(f"{on}-assignment-postcondition", f"after {op} of {v} as '{name}' on target {t}: {b}  [history {hist}]",
@@ -398,12 +430,26 @@ def reject_probes(rec):
             m.p = outer(port=True)
         elif how == "internal":
             m.p = outer()
+        elif how == "instance-bundle":
+            # used only as the type of an instance bundle (the h.Pair mechanism), connected by scalars
+            IB = h.InstanceBundleType(name=f"BAfterIB{next(_ctr)}", bundle=outer)
+            m.s = h.Signal()
+            m.q = IB(lib()["E"]())(z=m.s)
+        elif how == "failed-early":
+            # the module's elaboration fails in an EARLY pass (a width mismatch), long before bundles are flattened
+            m.p = outer()
+            m.w3 = h.Signal(width=3)
+            m.bad = lib()["E"]()(z=m.w3)
         else:
             c = h.Module(name=f"BAfterC{next(_ctr)}")
             c.p = outer(port=True)
             m.p = outer()
             m.i = c(p=m.p)
-        h.elaborate(m)
+        try:
+            h.elaborate(m)
+        except Exception:
+            if how != "failed-early":
+                raise
         target = b if which == "used" else outer
         if form == "setattr":
             target.z = h.Signal(width=3)
@@ -411,7 +457,9 @@ def reject_probes(rec):
             target.add(h.Signal(width=2), name="z")
 
     for depth in (0, 1, 2):
-        for how in ("port", "internal", "child"):
+        for how in ("port", "internal", "child", "instance-bundle", "failed-early"):
+            if how == "instance-bundle" and depth > 0:
+                continue  # (instance bundles take flat bundles only)
             for which in (("used",) if depth == 0 else ("used", "outer")):
                 for form in ("setattr", "add"):
                     rec.count("reject.bundle-after-elab")
@@ -646,7 +694,7 @@ def run(ctx, rec):
     # histories that re-use objects under several names / in two modules
     aops_m = [(t, op, n, v) for t in (0, 1) for op in ("setattr", "add") for n in ("x", "y") for v in ("P0", "P1", "P2", "FS", "FB")]
     aops_b = [(t, op, n, v) for t in (0, 1) for op in ("setattr", "add") for n in ("x", "y") for v in ("P0", "P1", "FS", "FB")]
-    for on, aops in (("module", aops_m), ("bundle", aops_b)):
+    for on, aops in (("module", aops_m), ("bundle", aops_b), ("mixed", aops_b)):
         hs_ = [h_ for l in (2, 3) for h_ in itertools.product(aops, repeat=l)]
         if ctx.quick:
             hs_ = rng.sample(hs_, 3000)
